@@ -77,6 +77,22 @@ CHECKS["C13"] = dict(
        "ConsistentRead, overwrite unless conditional, placeholder style enforced, PRIMARY KEY(id, created)).",
   technique="Coq proof (spec lemmas + refinement by induction over operations) + differential correspondence over semantic fakes", design="6/C13")
 
+CHECKS["C11"] = dict(
+  text="Coq theorems on a model of the secret protocol over a page record (mapped, locked, protection, holds-secret): a created secret is locked and no-access; readers nested to ANY depth see the "
+       "secret read-only and leave the pages no-access; Close wipes, then unlocks, then unmaps; a closed secret rejects every access without touching a page; and for ANY number of readers and closers "
+       "under ANY schedule no callback ever touches unmapped / no-access / wiped pages, protection is no-access exactly when no reader is inside, close() completes at most once (counting invariant, "
+       "induction over the schedule). Tie: both implementations over an interposed memcall that is a shadow page table; primitive-call traces, page state and results compared with the model in Coq.",
+  note="Partial: the kernel effects of mlock/madvise/mprotect/munmap, awnumar/memcall and memguard's allocator are assumptions (page record); for memguard only Protect is interposable. The Go scheduler is "
+       "represented by interleavings of the blocks that run under the secret's rw lock; the concurrent theorem is tied to the code by the sequential correspondence of those blocks, not by controlled schedules.",
+  technique="Coq proof (invariants, induction on nesting depth and on schedules) + differential correspondence over a shadow page table", design="6/C11")
+CHECKS["C12"] = dict(
+  text="Coq theorems for EVERY fault plan (any set of failing primitive calls): New and CreateRandom return a fully protected secret or an error, never a degraded secret; after a failed creation "
+       "the pages are wiped, and unlocked/unmapped unless that cleanup primitive itself failed; on every path secret bytes are zeroed before Unlock/Free; a failed open changes neither reader count nor pages; "
+       "a failed Close leaves the secret closable and a fault-free retry completes it. Tie: ALL single and pair fault positions over creation x access x close plus random plans on the real code through the "
+       "interposed memcall, compared call-by-call with the model in Coq; monitors: wipe-before-unlock, callbacks see original bytes, InUse counter balanced.",
+  note="Same modelling assumptions as C11. InUse accounting is monitored with the collector off (finalizers of abandoned secrets touch the global counter at arbitrary times).",
+  technique="Coq proof (case analysis over all fault positions) + exhaustive fault-position correspondence", design="6/C12")
+
 NOT_APPLICABLE = []
 
 
